@@ -36,7 +36,7 @@ from sim.common import (  # noqa: E402
 )
 
 TIERS = {
-    "quick": {"budget_s": 40, "max_runs": 200000, "det_samples": 24, "line_fraction": 0.4, "long_fraction": 0.0, "n_sweep": {"C12": 1200, "C13": 1600}},
+    "quick": {"budget_s": 40, "max_runs": 200000, "det_samples": 24, "line_fraction": 0.4, "long_fraction": 0.0, "n_sweep": {"C12": 1500, "C13": 3000}},
     "thorough": {"budget_s": 600, "max_runs": 5000000, "det_samples": 200, "line_fraction": 0.4, "long_fraction": 0.03, "n_sweep": {"C12": 10 ** 9, "C13": 10 ** 9}},
 }
 
@@ -239,50 +239,91 @@ def _minimise_child(arg):
     return minimise.minimise(spec, kind, runner.evaluate, max_cands=600, max_s=90.0)
 
 
-def report_violation(prop, s, repo, cfg):
-    """Minimise (in this process: it forks pristine children itself), write the
-    replay file, return its path."""
-    spec = s["spec"]
-    kind = s["violations"][0]["kind"]
-    runner.init_worker(repo, cfg, "fork")
-    t0 = time.time()
+def _replay_subprocess(prop, path, repo):
+    """Replay a file exactly the way a user would: in a fresh interpreter.
+    Returns (reproduced, violations_printed)."""
+    cmd = [sys.executable, os.path.abspath(__file__), prop, "--replay", path, "--repo", repo, "--json"]
     try:
-        # confirm under process isolation before anything is reported
-        viols0, _, _ = runner.evaluate(json.loads(json.dumps(spec)))
-        if not any(v["kind"] == kind for v in viols0):
-            raise HarnessError("violation kind %s of run %s found with in-process module isolation does not reproduce in a freshly forked process" % (kind, s["index"]))
-        # shrink with the cheap in-process isolation (inside one forked child, so
-        # that a hang of a candidate cannot hang the check), then confirm the
-        # result in a fresh process
-        try:
-            small, stats = proc.call_in_child(_minimise_child, (spec, kind), timeout=240, what="minimiser")
-        except HarnessError as e:
-            small, stats = spec, {"note": "minimiser stopped: %s" % str(e)[:300]}
-        viols, result, _ = runner.evaluate(json.loads(json.dumps(small)))
-        if not any(v["kind"] == kind for v in viols):
-            small, stats = spec, {"note": "minimised run did not reproduce; reporting the unminimised one"}
-            viols = s["violations"]
-    except HarnessError as e:
-        if "does not reproduce in a freshly forked process" in str(e):
-            raise
-        small, stats, viols = spec, {"note": "minimiser stopped: %s" % e}, s["violations"]
-    stats["seconds"] = round(time.time() - t0, 1)
+        p = subprocess.run(cmd, capture_output=True, text=True, timeout=400)
+    except subprocess.TimeoutExpired:
+        return False, None
+    info = None
+    for line in p.stdout.splitlines():
+        if line.startswith("REPLAY-JSON "):
+            try:
+                info = json.loads(line[len("REPLAY-JSON "):])
+            except ValueError:
+                pass
+    return p.returncode == EXIT_VIOLATION and bool(info and info.get("same_kind")), info
+
+
+def _make_replay(prop, spec, kind, viols, stats, isolation):
     v0 = next((v for v in viols if v["kind"] == kind), viols[0])
-    rep = {
+    return {
         "property": prop,
         "kind": kind,
         "engine": ENGINE_VERSION,
         "seed": spec.get("seed"),
         "run_index": spec.get("run_index"),
+        "replay_isolation": isolation,
         "violation": v0,
         "all_violations": [{k: v for k, v in x.items() if k in ("kind", "actor", "op", "detail")} for x in viols][:10],
         "minimisation": stats,
-        "spec": small,
+        "spec": spec,
         "how_to_replay": "./check %s --replay <this file>   (expected outcomes are recomputed from the tree, not stored)" % prop,
     }
+
+
+def report_violation(prop, s, repo, cfg):
+    """Confirm a failing run by replaying it in a fresh interpreter (process
+    isolation first, then in-process module isolation), minimise it, confirm the
+    minimised run the same way, write the replay file.  Raises HarnessError
+    '...does not reproduce...' if no replay of the run reproduces."""
+    spec = s["spec"]
+    kind = s["violations"][0]["kind"]
+    t0 = time.time()
     d = os.environ.get("VERIF_REPLAY_DIR") or os.path.join(VERIF_DIR, "replays")
     os.makedirs(d, exist_ok=True)
     path = os.path.join(d, "%s-%s-%s.json" % (prop, spec.get("seed"), spec.get("run_index")))
+    confirmed = None
+    for isolation in ("fork", "reimport"):
+        jdump(_make_replay(prop, spec, kind, s["violations"], {"note": "not minimised"}, isolation), path)
+        ok, info = _replay_subprocess(prop, path, repo)
+        if ok:
+            confirmed = isolation
+            break
+    if confirmed is None:
+        try:
+            os.remove(path)
+        except OSError:
+            pass
+        raise HarnessError("violation kind %s of run %s found during the search does not reproduce in a freshly forked process nor in a fresh interpreter" % (kind, s["index"]))
+    # shrink with the cheap in-process isolation inside one forked child (so that a
+    # hang of a candidate cannot hang the check), then confirm by a real replay
+    runner.init_worker(repo, cfg, "fork")
+    try:
+        small, stats = proc.call_in_child(_minimise_child, (spec, kind), timeout=240, what="minimiser")
+    except HarnessError as e:
+        small, stats = None, {"note": "minimiser stopped: %s" % str(e)[:300]}
+    rep = None
+    if small is not None:
+        stats["seconds"] = round(time.time() - t0, 1)
+        small_path = path + ".min"
+        for isolation in (confirmed, "reimport" if confirmed == "fork" else "fork"):
+            jdump(_make_replay(prop, small, kind, s["violations"], stats, isolation), small_path)
+            ok, info = _replay_subprocess(prop, small_path, repo)
+            if ok:
+                viols = (info or {}).get("violations") or s["violations"]
+                rep = _make_replay(prop, small, kind, viols, stats, isolation)
+                break
+        try:
+            os.remove(small_path)
+        except OSError:
+            pass
+        if rep is None:
+            stats = {"note": "the minimised run did not reproduce in a fresh interpreter; reporting the unminimised one", "seconds": round(time.time() - t0, 1)}
+    if rep is None:
+        rep = _make_replay(prop, spec, kind, s["violations"], stats, confirmed)
     jdump(rep, path)
     return path, rep
 
@@ -299,7 +340,12 @@ def cmd_check(args):
     print("check %s tier=%s VERIF_SEED=%d repo=%s workers=%d budget=%.0fs engine=%d" % (prop, tier, seed, repo, workers, budget, ENGINE_VERSION))
     sys.stdout.flush()
     agg = Agg()
-    fork_workers = 0 if workers < 4 else (2 if tier == "quick" else 3)
+    # workers doing every execution in a freshly forked process: fork is serialised
+    # system-wide here and two such workers cost a third of the total throughput,
+    # so the quick tier relies on the determinism self-test below (which re-runs a
+    # sample under fork isolation and compares verdicts too) and only the thorough
+    # tier dedicates workers to it
+    fork_workers = 2 if (tier == "thorough" and workers >= 4) else 0
     pool = make_pool(repo, cfg, workers, fork_workers=fork_workers)
     nxt = 0
     pending = set()
@@ -369,17 +415,32 @@ def cmd_check(args):
     for f in known:
         if f.get("status") == "open":
             print("KNOWN-FINDING: property=%s %s" % (prop, f.get("what", f.get("id"))))
-    for s in real[1:]:
-        print("  (also failing: run %d, kinds %s - not minimised, re-run with --seed %d to reproduce)" % (s["index"], sorted({v["kind"] for v in s["violations"]}), seed))
-    for s in real[:1]:
+    # report the first failing run that reproduces in a freshly forked process
+    # (a run found with the in-process isolation that does not reproduce there is
+    # not believed; if none of them does, that is a harness error, not a verdict)
+    real.sort(key=lambda s: s["index"])
+    reported = None
+    unconfirmed = []
+    for s in real[:6]:
         try:
             path, rep = report_violation(prop, s, repo, cfg)
         except HarnessError as e:
+            if "does not reproduce" in str(e):
+                unconfirmed.append(s["index"])
+                continue
             print("HARNESS-ERROR %s: %s" % (prop, e))
             return EXIT_HARNESS
+        reported = s
         print("VIOLATION property=%s replay=%s" % (prop, path))
         print("  kind=%s run=%d: %s" % (rep["kind"], s["index"], rep["violation"].get("detail")))
         rc = EXIT_VIOLATION
+        break
+    for s in real:
+        if s is not reported:
+            print("  (also failing: run %d, kinds %s%s - not minimised, re-run with --seed %d to reproduce)" % (s["index"], sorted({v["kind"] for v in s["violations"]}), " [did not reproduce under process isolation]" if s["index"] in unconfirmed else "", seed))
+    if real and reported is None:
+        print("HARNESS-ERROR %s: %d failing runs were found with in-process module isolation but none of the first %d reproduces in a freshly forked process" % (prop, len(real), len(unconfirmed)))
+        return EXIT_HARNESS
     agg.violations = real
     wall = time.time() - t0
     zero = write_evidence(prop, tier, seed, agg, wall, det)
@@ -429,8 +490,9 @@ def cmd_replay(args):
     repo = os.path.realpath(args.repo)
     rep = jload(args.replay)
     prop = rep["property"]
-    cfg = build_cfg(repo, "quick")
-    runner.init_worker(repo, cfg, "fork")
+    cfg = {"tier": "quick", "run_timeout": 300}
+    isolation = args.isolation or rep.get("replay_isolation") or "fork"
+    runner.init_worker(repo, cfg, isolation)
     spec = rep["spec"]
     try:
         viols, result, _ = runner.evaluate(spec)
@@ -438,18 +500,22 @@ def cmd_replay(args):
         print("HARNESS-ERROR replay: %s" % e)
         return EXIT_HARNESS
     same = [v for v in viols if v["kind"] == rep["kind"]]
+    if args.json:
+        print("REPLAY-JSON " + json.dumps({"same_kind": bool(same), "kinds": sorted({v["kind"] for v in viols}), "violations": viols[:10]}, default=repr))
+    how = "every execution in a freshly forked process" if isolation == "fork" else "fresh interpreter, one fresh pycparser module set per execution"
     if same:
         print("VIOLATION property=%s replay=%s" % (prop, os.path.abspath(args.replay)))
-        print("  reproduced kind=%s: %s" % (rep["kind"], same[0].get("detail")))
-        for key in ("got", "want", "first_diff", "first_token_diff"):
-            if same[0].get(key) is not None:
-                print("  %s: %s" % (key, json.dumps(same[0][key])[:600]))
+        print("  reproduced kind=%s (%s): %s" % (rep["kind"], how, same[0].get("detail")))
+        if not args.json:
+            for key in ("got", "want", "first_diff", "first_token_diff"):
+                if same[0].get(key) is not None:
+                    print("  %s: %s" % (key, json.dumps(same[0][key])[:600]))
         return EXIT_VIOLATION
     if viols:
         print("replay: different violation kinds %s (recorded: %s)" % (sorted({v['kind'] for v in viols}), rep["kind"]))
         print("VIOLATION property=%s replay=%s" % (prop, os.path.abspath(args.replay)))
         return EXIT_VIOLATION
-    print("replay: no violation on this tree (%s)" % repo)
+    print("replay: no violation on this tree (%s; %s)" % (repo, how))
     return EXIT_OK
 
 
@@ -467,6 +533,7 @@ def main():
     ap.add_argument("--digests", nargs=4)
     ap.add_argument("--mutants")
     ap.add_argument("--isolation", choices=["fork", "reimport"])
+    ap.add_argument("--json", action="store_true")
     args = ap.parse_args()
     if args.digests:
         return cmd_digests(args)
